@@ -10,6 +10,7 @@ CONSTANTS
   MaxSteps = 12
   LineRuns <- LRuns
   CurveRuns <- CRuns
+  FarJumps = FALSE
   Sim = TRUE
 INIT Init
 NEXT Next
